@@ -8,6 +8,7 @@ import (
 	"bufio"
 	"errors"
 	"fmt"
+	"io"
 	"net"
 	"os"
 	"sync"
@@ -209,6 +210,23 @@ func (h *labHub) wrapTCP(c net.Conn, owner *labEP, accepted bool) *labTCPConn {
 		for {
 			m, err := sipReadStream(r)
 			if err != nil {
+				if os.Getenv("VERIF_DEBUG_TCP") != "" && err != io.EOF {
+					rest, _ := r.Peek(min(r.Buffered(), 300))
+					fmt.Fprintf(os.Stderr, "DEBUG tcp reader %s: %v; got start=%q hdrs=%d; next bytes %q\n", tc, err, func() string {
+						if m != nil {
+							return m.Start
+						}
+						return ""
+					}(), func() int {
+						if m != nil {
+							return len(m.Hdrs)
+						}
+						return 0
+					}(), rest)
+				}
+				// like a real peer: a stream that cannot be framed any more is closed
+				// (the sender then sees the failure and reconnects)
+				c.Close()
 				atomic.StoreInt32(&tc.dead, 1)
 				h.push(labRx{ep: owner, tcp: tc, from: ra.String(), fromIP: ra.IP.String(), fromPt: ra.Port, closed: true})
 				return
